@@ -329,6 +329,8 @@ type prover struct {
 	untracked  map[*ssa.Alloc]bool // locals whose address escapes: never tracked
 	wr         map[*types.Var]bool
 	incomplete bool
+	li         *LockInfo            // must-held locks (for guarded-field memory)
+	guardOf    map[*types.Var]string // guarded field → name of its mutex field (C16's frozen table)
 	want       map[ssa.Instruction]bool
 	sums       map[*ssa.Function]boolSummary
 	// local variables captured by closures (any call may change them)
@@ -775,8 +777,33 @@ func (pv *prover) effects(z *zone, in ssa.Instruction) {
 			}
 		}
 	}
+	forgetGuarded := func(only *types.Var) {
+		for k, id := range pv.atoms {
+			if id >= z.n {
+				continue
+			}
+			isG := strings.HasPrefix(k, "cur:gf:") || strings.HasPrefix(k, "len:cur:gf:")
+			if !isG {
+				continue
+			}
+			if only != nil && !strings.HasSuffix(k, "#"+only.Name()) {
+				continue
+			}
+			z.forget(id)
+			if strings.HasPrefix(k, "len:") {
+				z.add(atomZero, id, 0)
+			}
+		}
+	}
 	switch x := in.(type) {
 	case *ssa.Store:
+		if fa, isFA := x.Addr.(*ssa.FieldAddr); isFA {
+			if fv := fieldVar(fa.X.Type(), fa.Field); fv != nil {
+				if _, guarded := pv.guardOf[fv]; guarded {
+					forgetGuarded(fv)
+				}
+			}
+		}
 		name, ok := pv.localVarName(x.Addr)
 		if !ok {
 			return
@@ -802,6 +829,7 @@ func (pv *prover) effects(z *zone, in ssa.Instruction) {
 		if _, isB := x.Common().Value.(*ssa.Builtin); isB {
 			return
 		}
+		forgetGuarded(nil) // any call may store to a guarded field or release its lock
 		// variables whose address is handed to the callee, or that some closure captured, may change
 		for _, a := range x.Common().Args {
 			if al, ok := a.(*ssa.Alloc); ok {
@@ -883,6 +911,22 @@ func (pv *prover) define(z *zone, in ssa.Instruction) {
 	switch x := in.(type) {
 	case *ssa.UnOp:
 		if x.Op == token.MUL {
+			// a field guarded by a mutex that is held here: the field is a variable nobody else writes while we hold the
+			// lock; its value lasts until a store to that field, any call, or the unlock (all handled in effects)
+			if key, ok := pv.guardedLoadKey(x, in); ok {
+				T := x.Type()
+				if isIntType(T) {
+					if a, off, ok := pv.intTerm(x); ok {
+						equate(a, off, pv.atom("cur:"+key), 0)
+					}
+				} else if _, isSl := T.Underlying().(*types.Slice); isSl || isStringType(T) {
+					if a, off, ok := pv.lenTerm(x); ok {
+						c := pv.atom("len:cur:" + key)
+						equate(a, off, c, 0)
+						z.add(atomZero, c, 0)
+					}
+				}
+			}
 			if name, ok := pv.localVarName(x.X); ok {
 				T := x.Type()
 				if isIntType(T) {
@@ -1760,6 +1804,16 @@ func newProver(ip *interproc, fn *ssa.Function) *prover {
 	pv := &prover{p: p, ip: ip, fn: fn, atoms: map[string]int{"0": 0}, names: []string{"0"}, want: map[ssa.Instruction]bool{}, sums: map[*ssa.Function]boolSummary{},
 		retB: map[int]ibound{}, callB: map[ssa.CallInstruction][]ibound{}, obRes: map[ssa.Instruction]*boundOb{}, untracked: map[*ssa.Alloc]bool{}}
 	pv.stable = stableFields(p, fn)
+	pv.guardOf = map[*types.Var]string{}
+	for _, g := range guardedBy {
+		if p.byShort[g.short] == nil {
+			continue
+		}
+		func() {
+			defer func() { _ = recover() }()
+			pv.guardOf[p.Field(g.short, g.typ, g.field)] = g.mutex
+		}()
+	}
 	for _, b := range fn.Blocks {
 		for _, in := range b.Instrs {
 			if mc, ok := in.(*ssa.MakeClosure); ok {
@@ -2149,4 +2203,29 @@ func (pv *prover) localVarName(addr ssa.Value) (string, bool) {
 		}
 	}
 	return "", false
+}
+
+// guardedLoadKey: load is a read of a field that C16's frozen table says is
+// guarded by a sibling mutex, and that mutex is certainly held at the load.
+func (pv *prover) guardedLoadKey(load *ssa.UnOp, in ssa.Instruction) (string, bool) {
+	fa, ok := load.X.(*ssa.FieldAddr)
+	if !ok {
+		return "", false
+	}
+	fv := fieldVar(fa.X.Type(), fa.Field)
+	if fv == nil {
+		return "", false
+	}
+	mu, guarded := pv.guardOf[fv]
+	if !guarded {
+		return "", false
+	}
+	if pv.li == nil {
+		pv.li = LocksInherit(pv.fn)
+	}
+	base := stripAmp(Term(fa.X))
+	if _, held := pv.li.Held(in)[base+"."+mu]; !held {
+		return "", false
+	}
+	return "gf:" + base + "#" + fv.Name(), true
 }
